@@ -117,6 +117,14 @@ class Angle(Reparameterisation):
         return x[self.parameters[0]] * self.scale, x, x_prime, log_j
 
     def _inverse_rescale_angle(self, x, x_prime, log_j):
+        # Map the recovered angle onto the branch that contains the prior
+        # bounds; angles that are already within the bounds are unchanged
+        lower = self.prior_bounds[self.angle][0]
+        period = 2.0 * np.pi / self.scale
+        angle = x[self.angle]
+        outside = (angle < lower) | (angle >= lower + period)
+        if np.any(outside):
+            angle[outside] = np.mod(angle[outside] - lower, period) + lower
         return x, x_prime, log_j
 
     def reparameterise(self, x, x_prime, log_j, **kwargs):
